@@ -577,4 +577,126 @@ theorem engArithScalar_safe_raw_right' (st : St) (op : String) (tc : List String
     rw [w2.other (Nat.ne_of_lt hT.lt), hf1 _ _ hT.lt]
   · intro b' k hb'
     rw [w3.other (Nat.ne_of_lt hb'), w2.other (Nat.ne_of_lt hb'), hf1 b' k hb']
+
+theorem engArithVV_iter_unsafe (st : St) (op : String) (tc : List String) (a b : Dense) (hc : BinOK tc a b)
+    (hk : (kernelTypes op).contains a.dt = true)
+    (hu : (a.requiresIterator || b.requiresIterator || !sameOrd a b) = true)
+    (hma : a.mask = none) (hmb : b.mask = none) :
+    engArithVV st op tc a b { unsafe_ := true } = (do
+      let s ← eOpIter st a.win b.win (fun x y => .app2 op x y) (a.offsets.map (·, true)) (b.offsets.map (·, true))
+        (vecFn op a.dt)
+      pure ⟨s, none, .a⟩) := by
+  unfold engArithVV
+  simp only [hc.ta, hc.tb, hc.ne, hc.sh, hfo_none, prepAliasVV_none, hk, hu, itStream_nomask _ _ hma,
+    itStream_nomask _ _ hmb, bind, Except.bind, pure, Except.pure,
+    Bool.not_true, Bool.false_eq_true, if_false, Bool.or_false, Bool.and_false, Bool.not_false,
+    Bool.and_true, if_true, Bool.false_and, Bool.true_and, Bool.or_self, Bool.false_or, Bool.true_or]
+
+/-- **`UseUnsafe()` on the iterator path** (an operand needs an iterator, or the data orders differ): exactly the logical
+    elements of `a` - the cells its iterator addresses - receive `op a b` of the elements at the same position of the
+    logical order; every other cell (the gaps of a view of `a`, the rest of its parent, `b`) keeps its value -/
+theorem engArithVV_unsafe_iter' (st : St) (op : String) (tc : List String) (a b : Dense) (hc : BinOK tc a b)
+    (hk : (kernelTypes op).contains a.dt = true)
+    (hu : (a.requiresIterator || b.requiresIterator || !sameOrd a b) = true)
+    (hma : a.mask = none) (hmb : b.mask = none) (hla : a.win.len ≠ 1) (hlb : b.win.len ≠ 1)
+    (hne : a.win.buf ≠ b.win.buf)
+    (hoa : ∀ i ∈ a.offsets, 0 ≤ i ∧ i < (a.win.len : Int)) (hob : ∀ j ∈ b.offsets, 0 ≤ j ∧ j < (b.win.len : Int))
+    (hnd : a.offsets.Nodup)
+    (hA : InBuf st a.win.buf a.win.off a.win.len) (hB : InBuf st b.win.buf b.win.off b.win.len) :
+    ∃ st', engArithVV st op tc a b { unsafe_ := true } = .ok ⟨st', none, .a⟩ ∧ st'.mheap = st.mheap ∧
+      (∀ (k : Nat) i j, a.offsets[k]? = some i → b.offsets[k]? = some j →
+        cell st' a.win.buf (a.win.off + i.toNat) =
+          some (.app2 op (cellD st a.win.buf (a.win.off + i.toNat)) (cellD st b.win.buf (b.win.off + j.toNat)))) ∧
+      (∀ b' k', (b' ≠ a.win.buf ∨ ∀ (k : Nat) i j, a.offsets[k]? = some i → b.offsets[k]? = some j →
+          k' ≠ a.win.off + i.toNat) → cell st' b' k' = cell st b' k') := by
+  rw [engArithVV_iter_unsafe st op tc a b hc hk hu hma hmb, eOpIter_VV _ _ _ _ _ _ _ hla hlb]
+  obtain ⟨s2, h2, hm2, _, hv2, hf2⟩ := kIterVV_spec st a.win b.win (fun x y => .app2 op x y)
+    (a.offsets.map (·, true)) (b.offsets.map (·, true)) hne
+    (inRange_map_true hoa) (inRange_map_true hob) (by rw [map_true_fst]; exact hnd) hA.has hB.has
+  refine ⟨s2, by simp only [h2, bind, Except.bind]; rfl, hm2, ?_, ?_⟩
+  · intro k i j hi hj
+    exact hv2 k i true j true (getElem?_map_true hi) (getElem?_map_true hj) rfl rfl
+  · intro b' k' h
+    apply hf2
+    rcases h with h | h
+    · exact Or.inl h
+    · refine Or.inr ?_
+      intro k i vi j vj hi hj _ _
+      exact h k i j (of_getElem?_map_true hi) (of_getElem?_map_true hj)
+
+theorem engCmpVV_iter_unsafe (st : St) (op : String) (tc : List String) (a b : Dense) (hc : BinOK tc a b)
+    (hu : (a.requiresIterator || b.requiresIterator || !sameOrd a b) = true)
+    (hma : a.mask = none) (hmb : b.mask = none) :
+    engCmpVV st op tc a b { unsafe_ := true } = (do
+      let s ← eOpIter st a.win b.win (fun x y => .app2 (op ++ ".same") x y) (a.offsets.map (·, true)) (b.offsets.map (·, true))
+      pure ⟨s, none, .a⟩) := by
+  unfold engCmpVV
+  simp only [hc.ta, hc.tb, hc.ne, hc.sh, hfo_none, prepAliasVV_none, hu, itStream_nomask _ _ hma,
+    itStream_nomask _ _ hmb, bind, Except.bind, pure, Except.pure,
+    Bool.not_true, Bool.false_eq_true, if_false, Bool.or_false, Bool.and_false, Bool.not_false,
+    Bool.and_true, if_true, Bool.false_and, Bool.true_and, Bool.or_self, Bool.false_or, Bool.true_or, Bool.or_true]
+
+/-- **In-place comparison on the iterator path**: exactly the logical elements of `a` receive the 1/0 form
+    `op.same a b` of the elements at the same position of the logical order; every other cell keeps its value -/
+theorem engCmpVV_unsafe_iter' (st : St) (op : String) (tc : List String) (a b : Dense) (hc : BinOK tc a b)
+    (hu : (a.requiresIterator || b.requiresIterator || !sameOrd a b) = true)
+    (hma : a.mask = none) (hmb : b.mask = none) (hla : a.win.len ≠ 1) (hlb : b.win.len ≠ 1)
+    (hne : a.win.buf ≠ b.win.buf)
+    (hoa : ∀ i ∈ a.offsets, 0 ≤ i ∧ i < (a.win.len : Int)) (hob : ∀ j ∈ b.offsets, 0 ≤ j ∧ j < (b.win.len : Int))
+    (hnd : a.offsets.Nodup)
+    (hA : InBuf st a.win.buf a.win.off a.win.len) (hB : InBuf st b.win.buf b.win.off b.win.len) :
+    ∃ st', engCmpVV st op tc a b { unsafe_ := true } = .ok ⟨st', none, .a⟩ ∧ st'.mheap = st.mheap ∧
+      (∀ (k : Nat) i j, a.offsets[k]? = some i → b.offsets[k]? = some j →
+        cell st' a.win.buf (a.win.off + i.toNat) =
+          some (.app2 (op ++ ".same") (cellD st a.win.buf (a.win.off + i.toNat)) (cellD st b.win.buf (b.win.off + j.toNat)))) ∧
+      (∀ b' k', (b' ≠ a.win.buf ∨ ∀ (k : Nat) i j, a.offsets[k]? = some i → b.offsets[k]? = some j →
+          k' ≠ a.win.off + i.toNat) → cell st' b' k' = cell st b' k') := by
+  rw [engCmpVV_iter_unsafe st op tc a b hc hu hma hmb, eOpIter_VV _ _ _ _ _ _ _ hla hlb]
+  obtain ⟨s2, h2, hm2, _, hv2, hf2⟩ := kIterVV_spec st a.win b.win (fun x y => .app2 (op ++ ".same") x y)
+    (a.offsets.map (·, true)) (b.offsets.map (·, true)) hne
+    (inRange_map_true hoa) (inRange_map_true hob) (by rw [map_true_fst]; exact hnd) hA.has hB.has
+  refine ⟨s2, by simp only [h2, bind, Except.bind]; rfl, hm2, ?_, ?_⟩
+  · intro k i j hi hj
+    exact hv2 k i true j true (getElem?_map_true hi) (getElem?_map_true hj) rfl rfl
+  · intro b' k' h
+    apply hf2
+    rcases h with h | h
+    · exact Or.inl h
+    · refine Or.inr ?_
+      intro k i vi j vj hi hj _ _
+      exact h k i j (of_getElem?_map_true hi) (of_getElem?_map_true hj)
+
+/-- **Unary operation with a reuse tensor on the iterator path** (the operand is a view with gaps or carries a pending
+    transpose, or the destination does; the two do not share a buffer): at the `k`-th position of the two iterators the
+    destination's cell receives `g` of the operand's element; nothing outside the destination's buffer changes -/
+theorem engUnary_reuse_iter' (st : St) (g : UnF) (tc kt : List String) (strict : Bool) (a r : Dense)
+    (hta : tc.contains a.dt = true) (hk : kt.contains a.dt = true)
+    (hr : ReuseFits r a.shape a.dt a.ap.o.col)
+    (hu : (a.requiresIterator || (r.requiresIterator || !sameOrd r a)) = true)
+    (hma : a.mask = none) (hmr : r.mask = none) (hne : r.win.buf ≠ a.win.buf)
+    (hcr : r.win.len ≤ r.win.cap) (hca : a.win.len ≤ a.win.cap)
+    (hor : ∀ i ∈ r.offsets, 0 ≤ i ∧ i < (r.win.len : Int)) (hoa : ∀ j ∈ a.offsets, 0 ≤ j ∧ j < (a.win.len : Int))
+    (hnd : r.offsets.Nodup)
+    (hA : InBuf st a.win.buf a.win.off a.win.len) (hR : InBuf st r.win.buf r.win.off r.win.len) :
+    ∃ st', engUnary st g tc kt strict a { reuse := some r } = .ok ⟨st', some r, .reuse⟩ ∧ st'.mheap = st.mheap ∧
+      (∀ (k : Nat) m j, r.offsets[k]? = some m → a.offsets[k]? = some j →
+        cell st' r.win.buf (r.win.off + m.toNat) = some (g (cellD st a.win.buf (a.win.off + j.toNat)))) ∧
+      (∀ b' k', b' ≠ r.win.buf → cell st' b' k' = cell st b' k') := by
+  have hp : prepAliasT st a (some r) = .ok (st, a) :=
+    prepAliasT_sep st a r (sharesMemory_of_buf_ne hne.symm)
+  rw [engUnary_iter_reuse_gen st st g tc kt strict a a r hta hk hr hp hu hma hmr]
+  obtain ⟨s2, h2, hm2, _, hv2, hf2⟩ := copyIterOffsets_spec st r.win a.win r.offsets a.offsets
+    r.win.len a.win.len hne hcr hca hor hoa hnd hR.has hA.has
+  simp only [h2, bind, Except.bind]
+  have hkeep : ∀ {b off n : Nat}, Has st b off n → Has s2 b off n :=
+    copyIterOffsets_has st s2 r.win r.offsets a.offsets
+      (fun k i j hi hj => by rw [hv2 k i j hi hj]; rfl) hf2
+  obtain ⟨s3, h3, hm3, _, hv3, hf3⟩ := kUnIter_spec s2 r.win g (r.offsets.map (·, true))
+    (inRange_map_true hor) (by rw [map_true_fst]; exact hnd) (hkeep hR.has)
+  refine ⟨s3, by rw [h3]; rfl, hm3.trans hm2, ?_, ?_⟩
+  · intro k m j hm hj
+    have hmem : (m, true) ∈ r.offsets.map (·, true) := List.mem_map.mpr ⟨m, List.mem_of_getElem? hm, rfl⟩
+    rw [hv3 m hmem, cellD_of_some (hv2 k m j hm hj)]
+  · intro b' k' hne'
+    rw [hf3 _ _ (Or.inl hne'), hf2 _ _ (Or.inl hne')]
 end TM
